@@ -100,6 +100,10 @@ class World:
             way = k % 3
             nodes = c.find(doc) if way == 0 else (c.apply(doc) if way == 1 else list(c.finditer(doc)))
             return [core.enc_loc(n.location) for n in nodes]
+        if op == "applyone":
+            c = self.handles[entry["h"] - 1]
+            one = c.find_one(self.docs[entry["d"]])
+            return [] if one is None else [core.enc_loc(one.location)]
         if op == "find":
             doc = self.docs[entry["d"]]
             try:
@@ -190,9 +194,9 @@ def run(chk: core.Check, tier: str, seed: int) -> None:
     chk.add_tlc(f"MC_System exhaustive MaxOps={maxops} MaxHandles=2 (VIEW abstract state + last op)", res)
     gens = [json.loads(json.loads(line.strip())[4:]) for line in res.out.splitlines() if line.strip().startswith('"GEN ')]
     n_exh = len(gens)
-    nsim = 10 if tier == "quick" else 400
-    sim = core.run_tlc("MC_System", base.format(m=25, h=4, exp="ExportFinal"), name="mc_system_sim", heap="6g", timeout=3000,
-                       simulate=f"num={nsim}", depth=26, seed=seed, workers=8)
+    nsim = 4 if tier == "quick" else 400
+    sim = core.run_tlc("MC_System", base.format(m=(16 if tier == "quick" else 25), h=4, exp="ExportFinal"), name="mc_system_sim", heap="6g", timeout=3000,
+                       simulate=f"num={nsim}", depth=30, seed=seed, workers=8)
     if "Error:" in sim.out and "violated" in sim.out:
         raise core.MachineryError("System.tla invariant violated in simulation:\n" + sim.out[-1500:])
     chk.add_tlc(f"MC_System simulation: {nsim} walks per worker (8 workers) of 25 operations, every successor of every visited state exported at depth 25", sim)
@@ -206,7 +210,7 @@ def run(chk: core.Check, tier: str, seed: int) -> None:
     for g, bad in zip(gens, verdicts):
         chk.evaluations += 1
         ops = tuple((e["op"], e.get("e"), e.get("q"), e.get("h"), e.get("d"), e.get("b"), e.get("to")) for e in g["hist"])
-        if any(e["op"] in ("apply", "find") and e.get("resp") not in ([], ["error"]) for e in g["hist"]):
+        if any(e["op"] in ("apply", "applyone", "find") and e.get("resp") not in ([], ["error"]) for e in g["hist"]):
             chk.nontrivial.add(ops)
         if bad:
             chk.violation({"clause": bad["clause"], "op": bad["op"]},
